@@ -378,4 +378,4 @@ def run(ctx):
                 ev.count(k)
         return f
 
-    ctx.campaign("main", gen.programs(cfg), oracle, max_examples=ctx.n(300, 32000))
+    ctx.campaign("main", gen.programs(cfg), oracle, max_examples=ctx.n(450, 32000))
